@@ -17,6 +17,13 @@ import (
 	"mellium.im/xmpp/stanza"
 )
 
+// ErrOccupantInUse is returned when joining a room under an occupant JID that
+// another Channel of the same Client has joined or is joining.
+// The room only ever reports one presence for that JID, so two channels could
+// not both follow it; leave (or give up) the other Channel first, or re-join
+// through it.
+var ErrOccupantInUse = errors.New("muc: occupant JID is in use by another channel")
+
 type joinCtx struct {
 	done <-chan struct{}
 	j    chan<- jid.JID
@@ -235,6 +242,10 @@ func (c *Channel) JoinPresence(ctx context.Context, p stanza.Presence, opt ...Op
 	c.client.managedM.Lock()
 	if c.client.managed == nil {
 		c.client.managed = make(map[string]*Channel)
+	}
+	if other, ok := c.client.managed[newAddr.String()]; ok && other != c {
+		c.client.managedM.Unlock()
+		return ErrOccupantInUse
 	}
 	if old := c.addr.String(); old != newAddr.String() && c.client.managed[old] == c {
 		delete(c.client.managed, old)
